@@ -72,12 +72,17 @@ pub struct Cases<W: Write> {
     pub nontrivial: HashSet<u64>,
     /// the property the current scenario serves (selects the predicates the driver evaluates)
     pub prop: String,
+    /// where the case in flight is saved before the implementation runs on it (read by `check`
+    /// when the process is killed or aborts: that case is then the failing input)
+    pub inflight: Option<String>,
+    /// an extra line for the next case begun (set by a generator, consumed by the emitter)
+    pub pending_tag: Option<String>,
     cur: String,
 }
 
 impl<W: Write> Cases<W> {
     pub fn new(out: W) -> Self {
-        Cases { out, count: 0, stats: BTreeMap::new(), samples: Vec::new(), nontrivial: HashSet::new(), prop: String::new(), cur: String::new() }
+        Cases { out, count: 0, stats: BTreeMap::new(), samples: Vec::new(), nontrivial: HashSet::new(), prop: String::new(), inflight: None, pending_tag: None, cur: String::new() }
     }
     pub fn begin(&mut self, kind: &str) -> u64 {
         self.count += 1;
@@ -89,6 +94,12 @@ impl<W: Write> Cases<W> {
     pub fn line(&mut self, s: &str) {
         self.cur.push_str(s);
         self.cur.push('\n');
+    }
+    /// saves the case in flight (header and inputs written so far)
+    pub fn checkpoint(&mut self) {
+        if let Some(p) = &self.inflight {
+            let _ = std::fs::write(p, self.cur.as_bytes());
+        }
     }
     pub fn end(&mut self) {
         self.cur.push_str("END\n");
@@ -107,6 +118,9 @@ impl<W: Write> Cases<W> {
     }
     pub fn finish(mut self, stats_path: &str) {
         self.out.flush().unwrap();
+        if let Some(p) = &self.inflight {
+            let _ = std::fs::remove_file(p);
+        }
         let n = self.nontrivial.len() as u64;
         self.stats.insert("nontrivial".to_string(), n);
         let mut s = String::from("{\n");
